@@ -717,8 +717,9 @@ def run_ties(ctx):
 def run_search(ctx):
     rng = ctx.rng
     n = ctx.n(8, 160)
-    for i in range(n):
-        case = orc.gen_search_case(rng, i, ctx.thorough)
+    extra = ctx.n(4, 24)   # every run: short-phase / long-phase exact-Gaussian histories (cheap: closed-form truth)
+    for i in range(n + extra):
+        case = orc.gen_search_case(rng, i, ctx.thorough, style="gauss-lengths" if i >= n else None)
         res, info = orc.evaluate(case)
         key = (tuple(case["hist"]), case["delta"], case["ee"])
         ctx.case(key, nontrivial=info.get("bracketed", False), sample=case if i < 2 else None, kind="search:" + info.get("truth", "none"))
